@@ -67,6 +67,9 @@ def run(tier, scratch, t0, replay=None):
         items = [[g["src"], g["pyc"]] for g in gi if os.path.exists(g["pyc"])]
         if quick:
             items = [it for it in items if os.path.getsize(it[1]) < 6000][:14]
+        else:
+            # instruction iteration is quadratic in code size: bounded so that the thorough tier ends within the hour
+            items = [it for it in items if os.path.getsize(it[1]) < 12000][:150]
         nat, e1, _, _ = K.run_agent(h, "stddump", {"mode": "native", "items": items}, wd, "x-native", timeout=3000)
         crs, e2, _, _ = K.run_agent(K.MAIN_HOST, "stddump", {"mode": "cross", "items": items, "version": list(h)}, wd,
                                     "x-cross", timeout=3000)
